@@ -38,3 +38,10 @@ Fixpoint drain (fuel : nat) (buf : bytes) : list frame * bytes :=
     end
   end.
 
+
+(* a streaming receiver of pipelined headers: every read is appended to the buffer, then as many complete
+   headers as the buffer holds are removed (fuel = length + 1 always suffices: Proofs/StreamPipe.v, drain_enough);
+   state = (frames delivered so far, buffered bytes) *)
+Definition drain_full (buf : bytes) : list frame * bytes := drain (S (length buf)) buf.
+Definition on_read (st : list frame * bytes) (r : bytes) : list frame * bytes :=
+  let '(got, buf) := st in let '(fs, b) := drain_full (buf ++ r) in (got ++ fs, b).
